@@ -503,7 +503,10 @@ pub fn check_raw(c: &RawCase) -> CaseResult {
                                 prev_end = Some(w.check(d.as_ref(), None, prev_end)?);
                                 flat_spans(d.as_ref(), &mut flat);
                             }
-                            _ => break,
+                            // a caller may go on after a syntax error: the datums
+                            // read afterwards have spans like any other
+                            Err(_) => continue,
+                            Ok(None) => break,
                         }
                     }
                 }};
@@ -523,7 +526,7 @@ pub fn check_raw(c: &RawCase) -> CaseResult {
             }
             match &reference {
                 None => reference = Some(flat),
-                Some(rf) if *rf != flat => return Err((format!("raw src={} which=differs-between-sources", src), "the spans of the datums read before the first error differ between source kinds".into())),
+                Some(rf) if *rf != flat => return Err((format!("raw src={} which=differs-between-sources", src), "the spans of the datums read from the input (going on after errors) differ between source kinds".into())),
                 _ => {}
             }
         }
@@ -588,7 +591,9 @@ pub fn check_raw(c: &RawCase) -> CaseResult {
                     match p.next_datum() {
                         Ok(Some(d)) => flat_spans(d.as_ref(), &mut flat),
                         Err(e) if e.is_io() && io_seen == 0 => io_seen += 1,
-                        _ => break,
+                        Err(e) if e.is_io() => break,
+                        Err(_) => continue,
+                        Ok(None) => break,
                     }
                 }
                 if flat != slice_flat {
